@@ -1451,4 +1451,57 @@ theorem fieldsWF_knobs (k : Knobs) : FieldsWF (fieldsWith k) := by
     all_goals first | (intro x hx; cases hx) | decide
 
 
+/-! ### (J) executable well-formedness check (for concrete, non-vacuity instances) -/
+
+def optAddrOk (o : Option (List Nat)) (k : Nat) : Bool :=
+  match o with
+  | none => true
+  | some a => (a.length == k) && !allZero a
+
+def valueWFb : ValueCodec → Value → Bool
+  | .varint, .int n => decide (n ≤ VarInt.maxValue)
+  | .u8, .int n => decide (n < 256)
+  | .unit, .unit => true
+  | .token, .bytes b => b.length == 16
+  | .cid lo, .bytes b => decide (lo ≤ b.length) && decide (b.length ≤ 20)
+  | .preferredAddress cm, .pa v4 v6 cid tok =>
+    optAddrOk v4 6 && optAddrOk v6 18 && decide (cm ≤ cid.length) && decide (cid.length ≤ 20) && (tok.length == 16)
+  | .dcVersions, .versions l => decide (l.length ≤ 4) && l.all (fun v => decide (v ≤ 4294967295))
+  | _, _ => false
+
+theorem optAddrOk_sound (o : Option (List Nat)) (k : Nat) (h : optAddrOk o k = true) :
+    ∀ a, o = some a → a.length = k ∧ allZero a = false := by
+  intro a ha
+  subst ha
+  simp only [optAddrOk, Bool.and_eq_true, beq_iff_eq, Bool.not_eq_true'] at h
+  exact h
+
+theorem valueWFb_sound (c : ValueCodec) (v : Value) (h : valueWFb c v = true) : ValueWF c v := by
+  cases c <;> cases v <;> simp only [valueWFb, Bool.false_eq_true] at h <;> simp only [ValueWF]
+  · simpa using h
+  · simpa using h
+  · simpa using h
+  · simpa using h
+  · simp only [Bool.and_eq_true, decide_eq_true_eq, beq_iff_eq] at h
+    exact ⟨optAddrOk_sound _ _ h.1.1.1.1, optAddrOk_sound _ _ h.1.1.1.2, h.1.1.2, h.1.2, h.2⟩
+  · simp only [Bool.and_eq_true, decide_eq_true_eq, List.all_eq_true] at h
+    exact h
+
+def paramsWFb (fs : List Field) (role : Role) (ps : Params) : Bool :=
+  fs.all (fun f =>
+    match wireValue ps f with
+    | none => true
+    | some v => valueWFb f.codec v && validate f v && !(f.serverOnly && role == .client))
+
+theorem paramsWFb_sound (fs : List Field) (role : Role) (ps : Params) (h : paramsWFb fs role ps = true) :
+    ParamsWF fs role ps := by
+  intro f hf v hw
+  unfold paramsWFb at h
+  rw [List.all_eq_true] at h
+  have := h f hf
+  rw [hw] at this
+  simp only [Bool.and_eq_true, Bool.not_eq_true'] at this
+  exact ⟨valueWFb_sound _ _ this.1.1, this.1.2, this.2⟩
+
+
 end Quic.Proofs.TransportParams
